@@ -247,3 +247,14 @@ def ob_c(ob):
                         raise HarnessError("gap counterexample did not reproduce")
                 elif v != "sat":
                     ob.verdict(v, "c:gap")
+
+
+# ---- shared obligation: Etot of an excited active state adds this re-evaluated excitation energy to the ground-state energy ----
+from . import C16 as _C16_mod  # noqa: E402
+
+
+@obligation(PID, "d", title="[shared with C16.c] " + [e for e in __import__("engine.ob", fromlist=["REGISTRY"]).REGISTRY["C16"] if e[1] is _C16_mod.ob_c][0][3])
+def ob_d_shared(ob):
+    """Etot of an excited active state adds this re-evaluated excitation energy to the ground-state energy"""
+    ob.note("this obligation is the one registered as C16.c; it is also decided here because Etot of an excited active state adds this re-evaluated excitation energy to the ground-state energy")
+    _C16_mod.ob_c(ob)
